@@ -6,7 +6,11 @@
    of the callbacks (which handles the k-th callback closes), any number of senders with any
    send scripts, and ANY schedule: [reachable s0 s] is "s is reached from s0 by some finite
    sequence of atomic steps of arbitrary threads" (thread 0 = loop, thread i+1 = sender i;
-   a send from a signal handler is one more sender).  The interleaving is sequentially
+   a send from a signal handler is one more sender), and over which handles were created
+   with a callback ([hascb k]; a handle created with a NULL callback is a pure waker: for it
+   [seen] is the value of [published] covered by the last wake-up the loop consumed, and
+   C09_wake_invariant / C09_no_lost_wakeup / C09_blocked_loop_is_woken say that every send
+   on it wakes the loop).  The interleaving is sequentially
    consistent; the property is therefore PARTIAL w.r.t. the C11 memory model (see
    notes/C09.md). *)
 From UV Require Import Lib.Base Model.Async Proofs.AsyncProofs.
@@ -17,15 +21,15 @@ Local Open Scope Z_scope.
    between the exchange that read 0 and the eventfd write, or the loop is inside the scan
    of uv__async_io and has not passed the handle. *)
 Theorem C09_wake_invariant :
-  forall n e0 lscript beh scripts, 0 <= e0 ->
-  forall s, reachable (init n e0 lscript beh scripts) s ->
+  forall hascb n e0 lscript beh scripts, 0 <= e0 ->
+  forall s, reachable (init hascb n e0 lscript beh scripts) s ->
   forall h, hst (hs s h) = Open -> pending (hs s h) = true ->
     0 < efd s
     \/ (exists i x h', nth_error (snd s) i = Some x /\ s_pc x = SWrite h')
     \/ (outside (lp s) = false /\ In h (l_queue (lp s))).
 Proof.
-  intros n e0 ls beh sc He s Hr h Ho Hp.
-  exact (wake_invariant s (reachable_inv _ _ _ _ _ _ He Hr) h Ho Hp).
+  intros cbf n e0 ls beh sc He s Hr h Ho Hp.
+  exact (wake_invariant s (reachable_inv _ _ _ _ _ _ _ He Hr) h Ho Hp).
 Qed.
 Print Assumptions C09_wake_invariant.
 
@@ -33,13 +37,13 @@ Print Assumptions C09_wake_invariant.
    epoll_pwait with timeout -1 and the eventfd counter is 0, i.e. it would block) the
    latest callback of every open handle has seen everything that was published. *)
 Theorem C09_no_lost_wakeup :
-  forall n e0 lscript beh scripts, 0 <= e0 ->
-  forall s, reachable (init n e0 lscript beh scripts) s ->
+  forall hascb n e0 lscript beh scripts, 0 <= e0 ->
+  forall s, reachable (init hascb n e0 lscript beh scripts) s ->
   quiescent s = true ->
   forall h, hst (hs s h) = Open -> seen (hs s h) = published (hs s h).
 Proof.
-  intros n e0 ls beh sc He s Hr Hq h Ho.
-  exact (no_lost_wakeup s (reachable_inv _ _ _ _ _ _ He Hr) Hq h Ho).
+  intros cbf n e0 ls beh sc He s Hr Hq h Ho.
+  exact (no_lost_wakeup s (reachable_inv _ _ _ _ _ _ _ He Hr) Hq h Ho).
 Qed.
 Print Assumptions C09_no_lost_wakeup.
 
@@ -47,25 +51,25 @@ Print Assumptions C09_no_lost_wakeup.
    epoll_pwait and some open handle has pending = 1, the eventfd is readable or a sender is
    about to write it (and that sender's next step is always enabled). *)
 Theorem C09_blocked_loop_is_woken :
-  forall n e0 lscript beh scripts, 0 <= e0 ->
-  forall s, reachable (init n e0 lscript beh scripts) s ->
+  forall hascb n e0 lscript beh scripts, 0 <= e0 ->
+  forall s, reachable (init hascb n e0 lscript beh scripts) s ->
   (exists nb, l_pc (lp s) = LPoll nb) ->
   forall h, hst (hs s h) = Open -> pending (hs s h) = true ->
     0 < efd s \/ (exists i x h', nth_error (snd s) i = Some x /\ s_pc x = SWrite h').
 Proof.
-  intros n e0 ls beh sc He s Hr Hp h Ho Hpe.
-  exact (blocked_loop_is_woken s (reachable_inv _ _ _ _ _ _ He Hr) Hp h Ho Hpe).
+  intros cbf n e0 ls beh sc He s Hr Hp h Ho Hpe.
+  exact (blocked_loop_is_woken s (reachable_inv _ _ _ _ _ _ _ He Hr) Hp h Ho Hpe).
 Qed.
 Print Assumptions C09_blocked_loop_is_woken.
 
 (* The callback never runs without a send. *)
 Theorem C09_cb_only_after_send :
-  forall n e0 lscript beh scripts, 0 <= e0 ->
-  forall s, reachable (init n e0 lscript beh scripts) s ->
+  forall hascb n e0 lscript beh scripts, 0 <= e0 ->
+  forall s, reachable (init hascb n e0 lscript beh scripts) s ->
   forall h, cb_count (hs s h) <= sends_begun (hs s h).
 Proof.
-  intros n e0 ls beh sc He s Hr h.
-  exact (cb_only_after_send s (reachable_inv _ _ _ _ _ _ He Hr) h).
+  intros cbf n e0 ls beh sc He s Hr h.
+  exact (cb_only_after_send s (reachable_inv _ _ _ _ _ _ _ He Hr) h).
 Qed.
 Print Assumptions C09_cb_only_after_send.
 
@@ -73,26 +77,26 @@ Print Assumptions C09_cb_only_after_send.
    handles uv_close has finished with) the callback of h never runs again, under any
    continuation of the schedule. *)
 Theorem C09_no_cb_after_close :
-  forall n e0 lscript beh scripts, 0 <= e0 ->
-  forall s, reachable (init n e0 lscript beh scripts) s ->
+  forall hascb n e0 lscript beh scripts, 0 <= e0 ->
+  forall s, reachable (init hascb n e0 lscript beh scripts) s ->
   forall h, hst (hs s h) = Closing ->
   forall sched s', run s sched = Some s' ->
     hst (hs s' h) = Closing /\ cb_count (hs s' h) = cb_count (hs s h).
 Proof.
-  intros n e0 ls beh sc He s Hr h Hc sched s' Hrun.
-  exact (no_cb_after_close s (reachable_inv _ _ _ _ _ _ He Hr) h Hc sched s' Hrun).
+  intros cbf n e0 ls beh sc He s Hr h Hc sched s' Hrun.
+  exact (no_cb_after_close s (reachable_inv _ _ _ _ _ _ _ He Hr) h Hc sched s' Hrun).
 Qed.
 Print Assumptions C09_no_cb_after_close.
 
 (* close_cb(h) runs only for handles on which uv_close has returned (so "never after the
    close callback" is the theorem above applied to a state in which close_cb has run). *)
 Theorem C09_close_cb_after_close :
-  forall n e0 lscript beh scripts, 0 <= e0 ->
-  forall s, reachable (init n e0 lscript beh scripts) s ->
+  forall hascb n e0 lscript beh scripts, 0 <= e0 ->
+  forall s, reachable (init hascb n e0 lscript beh scripts) s ->
   forall h, In h (l_closed (lp s)) ->
     unl (hs s h) = true /\ hst (hs s h) = Closing.
 Proof.
-  intros n e0 ls beh sc He s Hr h Hin. pose proof (reachable_inv _ _ _ _ _ _ He Hr) as I.
+  intros cbf n e0 ls beh sc He s Hr h Hin. pose proof (reachable_inv _ _ _ _ _ _ _ He Hr) as I.
   pose proof (close_cb_after_close s I h (or_intror Hin)) as Hu.
   split; [exact Hu|]. exact (proj1 (closed_handle_silent s I h Hu)).
 Qed.
@@ -104,8 +108,8 @@ Print Assumptions C09_close_cb_after_close.
    (2) In every later state pending(h) stays 1, h stays closing, and no sender is ever
        between a successful exchange and the eventfd write on h's behalf. *)
 Theorem C09_close_safe :
-  forall n e0 lscript beh scripts, 0 <= e0 ->
-  forall s, reachable (init n e0 lscript beh scripts) s ->
+  forall hascb n e0 lscript beh scripts, 0 <= e0 ->
+  forall s, reachable (init hascb n e0 lscript beh scripts) s ->
   forall h,
   (forall s', step s 0 = Some s' ->
      (l_pc (lp s) = LSpin0 h \/ l_pc (lp s) = LSpin h) ->
@@ -118,11 +122,11 @@ Theorem C09_close_safe :
        unl (hs s' h) = true /\ hst (hs s' h) = Closing /\ pending (hs s' h) = true /\
        (forall i x, nth_error (snd s') i = Some x -> s_pc x <> SWrite h)).
 Proof.
-  intros n e0 ls beh sc He s Hr h. pose proof (reachable_inv _ _ _ _ _ _ He Hr) as I. split.
+  intros cbf n e0 ls beh sc He s Hr h. pose proof (reachable_inv _ _ _ _ _ _ _ He Hr) as I. split.
   - intros s' Hst Hpc Hout. exact (close_returns_when_idle s s' h I Hst Hpc Hout).
   - intros Hu sched s' Hrun.
     pose proof (unl_stable s h Hu sched s' Hrun) as Hu'.
-    pose proof (reachable_inv _ _ _ _ _ _ He (run_reachable _ sched s s' Hr Hrun)) as I'.
+    pose proof (reachable_inv _ _ _ _ _ _ _ He (run_reachable _ sched s s' Hr Hrun)) as I'.
     split; [exact Hu'|]. exact (closed_handle_silent s' I' h Hu').
 Qed.
 Print Assumptions C09_close_safe.
@@ -132,7 +136,7 @@ Print Assumptions C09_close_safe.
    close_cb and then still increments busy (user-lifetime issue, see notes/C09.md). *)
 Theorem C09_close_memory_quiescence_refuted :
   exists n e0 lscript beh scripts sched s,
-    0 <= e0 /\ run (init n e0 lscript beh scripts) sched = Some s /\
+    0 <= e0 /\ run (init allcb n e0 lscript beh scripts) sched = Some s /\
     In 0%nat (l_closed (lp s)) /\ unl (hs s 0%nat) = true /\ busy (hs s 0%nat) = 1.
 Proof.
   destruct late_sender_touches_closed_handle as (s & H).
@@ -145,7 +149,7 @@ Print Assumptions C09_close_memory_quiescence_refuted.
    loses a wake-up (so the theorems above are not vacuous about the order). *)
 Theorem C09_scan_before_drain_refuted :
   exists n e0 lscript beh scripts sched s,
-    0 <= e0 /\ run_gen false (init n e0 lscript beh scripts) sched = Some s /\
+    0 <= e0 /\ run_gen false (init allcb n e0 lscript beh scripts) sched = Some s /\
     quiescent s = true /\ hst (hs s 0%nat) = Open /\
     seen (hs s 0%nat) < published (hs s 0%nat).
 Proof.
@@ -159,7 +163,7 @@ Print Assumptions C09_scan_before_drain_refuted.
    callbacks have been delivered. *)
 Example C09_quiescent_state_exists :
   exists n e0 lscript beh scripts sched s,
-    0 <= e0 /\ run (init n e0 lscript beh scripts) sched = Some s /\
+    0 <= e0 /\ run (init allcb n e0 lscript beh scripts) sched = Some s /\
     quiescent s = true /\ hst (hs s 0%nat) = Open /\ cb_count (hs s 0%nat) = 2.
 Proof.
   destruct quiescent_example as (s & Hr & Hq & Ho & Hs & Hc).
@@ -182,8 +186,8 @@ Print Assumptions C09_quiescent_state_exists.
    seen all the child's publications; the child never runs a callback without a send of
    its own (its counters restart at fork); the same holds for the parent. *)
 Theorem C09_fork_no_lost_wakeup :
-  forall n e0 lscript beh scripts, 0 <= e0 ->
-  forall s, reachable (init n e0 lscript beh scripts) s ->
+  forall hascb n e0 lscript beh scripts, 0 <= e0 ->
+  forall s, reachable (init hascb n e0 lscript beh scripts) s ->
   l_pc (lp s) = LTop -> (forall k, ~ In k (lst s) -> busy (hs s k) = 0) ->
   forall clscript cbeh cscripts sched y,
   sys_run (fork_sys true s clscript cbeh cscripts) sched = Some y ->
@@ -195,8 +199,8 @@ Theorem C09_fork_no_lost_wakeup :
   (forall h, cb_count (hs (par y) h) <= sends_begun (hs (par y) h)) /\
   efd (chi y) = ctr y (ch_chi y) /\ efd (par y) = ctr y (ch_par y).
 Proof.
-  intros n e0 ls beh sc He s Hr Hpc Hb cls cbeh csc sched y Hrun.
-  destruct (fork_both_inv s cls cbeh csc sched y (reachable_inv _ _ _ _ _ _ He Hr) Hpc Hb Hrun)
+  intros cbf n e0 ls beh sc He s Hr Hpc Hb cls cbeh csc sched y Hrun.
+  destruct (fork_both_inv s cls cbeh csc sched y (reachable_inv _ _ _ _ _ _ _ He Hr) Hpc Hb Hrun)
     as (Ip & Ic & Hp & Hc & _).
   split; [exact (no_lost_wakeup (chi y) Ic)|].
   split; [exact (cb_only_after_send (chi y) Ic)|].
@@ -245,7 +249,7 @@ Print Assumptions C09_fork_shared_channel_refuted.
 (* ---------------------------------------------------------------------------------- *)
 Theorem C09_stop_break_refuted :
   exists n e0 lscript beh scripts sched s,
-    0 <= e0 /\ run_stopbreak (init n e0 lscript beh scripts) sched = Some s /\
+    0 <= e0 /\ run_stopbreak (init allcb n e0 lscript beh scripts) sched = Some s /\
     quiescent s = true /\ hst (hs s 1%nat) = Open /\ pending (hs s 1%nat) = true /\
     seen (hs s 1%nat) < published (hs s 1%nat).
 Proof.
@@ -259,7 +263,7 @@ Print Assumptions C09_stop_break_refuted.
    uv_stop(), and the stop flag is cleared. *)
 Example C09_stop_examines_all_handles :
   exists n e0 lscript beh scripts sched s,
-    0 <= e0 /\ run (init n e0 lscript beh scripts) sched = Some s /\
+    0 <= e0 /\ run (init allcb n e0 lscript beh scripts) sched = Some s /\
     l_pc (lp s) = LTop /\ l_stop (lp s) = false /\
     cb_count (hs s 0%nat) = 1 /\ cb_count (hs s 1%nat) = 1.
 Proof.
@@ -268,3 +272,41 @@ Proof.
   repeat split; auto; lia.
 Qed.
 Print Assumptions C09_stop_examines_all_handles.
+
+(* ---------------------------------------------------------------------------------- *)
+(* Handles created with a NULL callback.  All theorems above quantify over [hascb]:     *)
+(* uv__async_io clears pending for every handle of the list before it looks at the     *)
+(* callback, so the wake invariant and the no-lost-wake-up theorem hold for handles     *)
+(* without a callback too (for them [seen h = published h] at quiescence says: every     *)
+(* send was followed by a pass of the loop that consumed its flag).  Sanity: the         *)
+(* variant that tests async_cb == NULL before the exchange leaves the flag set for ever: *)
+(* the second send returns at the pending check and the loop stays blocked.             *)
+(* ---------------------------------------------------------------------------------- *)
+Theorem C09_null_check_first_refuted :
+  exists hascb n e0 lscript beh scripts sched s,
+    0 <= e0 /\ hascb 0%nat = false /\
+    run_nullfirst (init hascb n e0 lscript beh scripts) sched = Some s /\
+    quiescent s = true /\ hst (hs s 0%nat) = Open /\ pending (hs s 0%nat) = true /\
+    seen (hs s 0%nat) < published (hs s 0%nat).
+Proof.
+  destruct null_check_first_loses_wakeup as (s & Hr & Hq & Ho & Hp & Hs & Hpub).
+  exists nc_cbf, 1%nat, 0, [OpRun true], nobeh, [[0%nat; 0%nat]], (nc_sched1 ++ [1; 1]%nat), s.
+  repeat split; auto; lia.
+Qed.
+Print Assumptions C09_null_check_first_refuted.
+
+(* The code as it is: two sends on a handle without a callback wake the loop twice; it ends
+   quiescent with the flag clear, no callback run, everything published covered. *)
+Example C09_null_callback_handle_wakes_loop :
+  exists hascb n e0 lscript beh scripts sched s,
+    0 <= e0 /\ hascb 0%nat = false /\
+    run (init hascb n e0 lscript beh scripts) sched = Some s /\
+    quiescent s = true /\ pending (hs s 0%nat) = false /\ cb_count (hs s 0%nat) = 0 /\
+    seen (hs s 0%nat) = published (hs s 0%nat) /\ published (hs s 0%nat) = 2.
+Proof.
+  destruct null_callback_handle_wakes_loop as (s & Hr & Hq & Hp & Hc & Hs & Hpub).
+  exists nc_cbf, 1%nat, 0, [OpRun true], nobeh, [[0%nat; 0%nat]],
+         (nc_sched1 ++ [1; 1; 1; 1; 1; 1; 0; 0; 0; 0; 0]%nat), s.
+  repeat split; auto; lia.
+Qed.
+Print Assumptions C09_null_callback_handle_wakes_loop.
